@@ -70,6 +70,7 @@ struct Op {
     string ff_kind; int ff_errno = 0; long long ff_at = -1; int ff_transient = 0; // FILE fault
     int fkind = 0;              // FILE: what fstat() says - 0 regular file (st_size = length), 1 FIFO/pipe (st_size = 0)
     string of_kind; long long of_at = -1; int of_errno = 0;                        // INVOKE: stdout fault
+    int usage = 0;              // INVOKE: 1 = "-h", 2 = "--help" as first argument (files follow); an invocation without files is the usage path too
     int loc = 0;                // INVOKE: the user's locale (the tool calls setlocale(LC_ALL, "")): 0 C, 1 C.UTF-8, 2 a single-byte locale
 };
 struct Plan { string cfg = "nofault"; uint64_t seed = 0; long long index = -1; vector<Op> ops; };
@@ -85,6 +86,7 @@ static sj::Value op_to_json(const Op &op) {
         if (!op.ff_kind.empty()) { sj::Value f = sj::Value::object(); f.set("kind", op.ff_kind); f.set("errno", op.ff_errno); f.set("at", op.ff_at); f.set("transient", op.ff_transient); j.set("ff", f); }
     }
     if (op.k == "INVOKE" && op.loc) j.set("loc", op.loc);
+    if (op.k == "INVOKE" && op.usage) j.set("usage", op.usage);
     if (op.k == "INVOKE" && !op.of_kind.empty()) { sj::Value f = sj::Value::object(); f.set("kind", op.of_kind); f.set("at", op.of_at); f.set("errno", op.of_errno); j.set("of", f); }
     return j;
 }
@@ -101,7 +103,7 @@ static Plan plan_from_json(const sj::Value &j) {
     if (ops) for (auto &e : ops->a) {
         Op op; op.k = e.gets("k");
         if (op.k != "INVOKE" && op.k != "FILE" && op.k != "LINE") continue;
-        op.s = e.gets("s"); op.t = (int)e.geti("t"); op.fkind = (int)e.geti("kind"); op.loc = (int)e.geti("loc");
+        op.s = e.gets("s"); op.t = (int)e.geti("t"); op.fkind = (int)e.geti("kind"); op.loc = (int)e.geti("loc"); op.usage = (int)e.geti("usage");
         const sj::Value *c = e.get("chunks"); if (c) for (auto &x : c->a) op.chunks.push_back(x.i < 1 ? 1 : x.i);
         const sj::Value *f = e.get("ff");
         if (f && f->kind == sj::Value::Obj) { op.ff_kind = f->gets("kind"); op.ff_errno = (int)f->geti("errno"); op.ff_at = f->geti("at", -1); op.ff_transient = (int)f->geti("transient"); }
@@ -114,11 +116,11 @@ static Plan plan_from_json(const sj::Value &j) {
 
 // structured view of a plan (ops interpreted modulo structure: any subsequence is legal)
 struct SFile { int fkind = 0; string data; vector<long long> chunks; string ff_kind; int ff_errno = 0; long long ff_at = -1; int ff_transient = 0; int nlines = 0; };
-struct SInv { vector<SFile> files; string of_kind; long long of_at = -1; int of_errno = 0; int loc = 0; };
+struct SInv { vector<SFile> files; string of_kind; long long of_at = -1; int of_errno = 0; int loc = 0; int usage = 0; };
 static vector<SInv> structure(const Plan &p) {
     vector<SInv> inv;
     for (auto &op : p.ops) {
-        if (op.k == "INVOKE") { SInv i; i.of_kind = op.of_kind; i.of_at = op.of_at; i.of_errno = op.of_errno; i.loc = op.loc; inv.push_back(i); }
+        if (op.k == "INVOKE") { SInv i; i.of_kind = op.of_kind; i.of_at = op.of_at; i.of_errno = op.of_errno; i.loc = op.loc; i.usage = op.usage; inv.push_back(i); }
         else if (op.k == "FILE") {
             if (inv.empty()) inv.push_back(SInv());
             SFile f; f.fkind = op.fkind; f.chunks = op.chunks; f.ff_kind = op.ff_kind; f.ff_errno = op.ff_errno; f.ff_at = op.ff_at; f.ff_transient = op.ff_transient;
@@ -402,7 +404,7 @@ static vector<Expect> model_file(const string &data, std::set<string> *shapes) {
 // ------------------------------------------------------------------ execution
 struct Viol { string cls, detail; };
 struct Stats {
-    uint64_t plans = 0, invocations = 0, files = 0, lines = 0, verdicts_checked = 0, exact_echo_checked = 0, bytes = 0, steps = 0;
+    uint64_t usage_invocations = 0, plans = 0, invocations = 0, files = 0, lines = 0, verdicts_checked = 0, exact_echo_checked = 0, bytes = 0, steps = 0;
     uint64_t reads = 0, short_reads = 0, fault_open = 0, fault_read_eintr = 0, fault_read_eio = 0, fault_read_attached = 0, fault_open_attached = 0;
     uint64_t fault_out_attached = 0, fault_out_fired = 0, relaxed_files = 0, allocs = 0;
     std::set<string> shapes, tuples; std::set<uint64_t> plan_hashes, nontrivial;
@@ -433,6 +435,8 @@ struct Exec {
         for (size_t i = 0; i < iv.files.size(); i++) sim.fs[i].f = &iv.files[i];
         S = &sim;
         vector<string> args; args.push_back("eav");
+        if (iv.usage) args.push_back(iv.usage == 1 ? "-h" : "--help");
+        bool usage_path = iv.usage != 0 || iv.files.empty();
         for (size_t i = 0; i < iv.files.size(); i++) args.push_back("sim:" + std::to_string(i));
         vector<char *> argv; for (auto &a : args) argv.push_back((char *)a.c_str()); argv.push_back(nullptr);
         cookie_io_functions_t oio = { nullptr, out_cb, nullptr, nullptr };
@@ -471,8 +475,15 @@ struct Exec {
         if (dead) {
             viol(dead == 2 ? "C20:assertion-failure:" + g_abort_expr : dead == 1 ? string("C20:abort") : dead == 4 ? string("C20:no-progress") : string("C20:exit-called"), g_abort_what);
         } else {
+            if (usage_path) {
+                // no file to work on / help asked for: nothing is read, nothing is judged; whatever the tool prints and returns
+                ST.usage_invocations++;
+                for (size_t i = 0; i < sim.fs.size(); i++) if (sim.fs[i].opened) viol("C20:file-read-on-usage-path", "help was asked for, yet input file " + std::to_string(i) + " was opened");
+                if (sim.out.find("PASS") != string::npos || sim.out.find("FAIL") != string::npos) viol("C20:verdict-on-usage-path", "verdict lines printed although no file was to be read");
+            } else {
             if (rc != 0) viol("C20:nonzero-exit-status", "eav returned " + std::to_string((int)rc));
             check_output(iv, sim);
+            }
             // progress: no storm of reads after EOF
             for (auto &st : sim.fs) if (st.reads_after_eof > 3) viol("C20:keeps-reading-after-eof", "read callback invoked " + std::to_string(st.reads_after_eof) + " times after end of file");
             for (size_t i = 0; i < sim.fs.size(); i++) if (sim.fs[i].opened && !sim.fs[i].closed) viol("C20:file-not-closed", "input file " + std::to_string(i) + " was opened and never closed");
@@ -692,6 +703,7 @@ static Plan gen_plan(const string &cfg, uint64_t seed, long long index) {
     for (int iv = 0; iv < ninv; iv++) {
         Op inv; inv.k = "INVOKE";
         { unsigned lc = (unsigned)sim_below(&w, 10); inv.loc = lc < 6 ? 0 : lc < 8 ? 1 : 2; }
+        { sim_rng u = sim_derive(rs, 40 + (uint64_t)iv); if (sim_below(&u, 40) == 0) inv.usage = 1 + (int)sim_below(&u, 2); }
         if (cfg == "outfault" && sim_below(&f, 100) < 70) {
             unsigned k = (unsigned)sim_below(&f, 3);
             inv.of_kind = k == 0 ? "short" : k == 1 ? "enospc" : "epipe"; inv.of_errno = k == 1 ? ENOSPC : EPIPE;
@@ -781,7 +793,7 @@ static void write_hashes(const char *path) {
 }
 static sj::Value stats_json() {
     sj::Value j = sj::Value::object();
-    j.set("plans", ST.plans); j.set("invocations", ST.invocations); j.set("files", ST.files); j.set("lines", ST.lines); j.set("bytes", ST.bytes);
+    j.set("plans", ST.plans); j.set("invocations", ST.invocations); j.set("usage_path_invocations", ST.usage_invocations); j.set("files", ST.files); j.set("lines", ST.lines); j.set("bytes", ST.bytes);
     j.set("steps", ST.steps); j.set("verdicts_checked", ST.verdicts_checked); j.set("exact_echo_checked", ST.exact_echo_checked);
     j.set("read_callbacks", ST.reads); j.set("short_reads", ST.short_reads); j.set("allocations_ledgered", ST.allocs);
     j.set("fault_fopen_attached", ST.fault_open_attached); j.set("fault_fopen_fired", ST.fault_open);
@@ -836,6 +848,7 @@ int main(int argc, char **argv) {
         Exec ex(p, false); ex.run();
         vector<SInv> inv = structure(p);
         for (size_t i = 0; i < inv.size() && i < ex.outs.size(); i++) {
+            if (inv[i].usage || inv[i].files.empty()) { FILE *fs = __real_fopen((dir + "/inv" + std::to_string(i) + ".skip").c_str(), "wb"); if (fs) fclose(fs); continue; }   // usage path: nothing to compare
             for (size_t f = 0; f < inv[i].files.size(); f++) {
                 FILE *fh = __real_fopen((dir + "/inv" + std::to_string(i) + "_f" + std::to_string(f) + ".txt").c_str(), "wb");
                 if (fh) { fwrite(inv[i].files[f].data.data(), 1, inv[i].files[f].data.size(), fh); fclose(fh); }
